@@ -608,7 +608,7 @@ func expectPanic(f func()) (panicked bool) {
 // literal=true (harness C08/misuse-literal) every later call is asserted (check C08.misuse-healed).
 func c08Misuse(literal bool) {
 	cc := bigbuff.NewChanCaster(make(chan int))
-	variant := simrt.Draw(4)
+	variant := simrt.Draw(5)
 	c := simrt.DrawRange(0, 2)
 	extra := []int{1, 1, 2, math.MaxInt32}[simrt.Draw(4)]
 	wide := 0 // out-of-range deltas beyond 32 bits (int is 64 bits wide here)
@@ -747,15 +747,36 @@ func c08Misuse(literal bool) {
 			return
 		}
 		simrt.Probe("overflowing_add")
+	case 4:
+		// two in-range positive Adds issued concurrently whose sum exceeds MaxInt32: whichever takes
+		// effect second overflows, so at least one of the two calls must panic
+		c = 0
+		a := math.MaxInt32 - simrt.Draw(3)
+		bb := 3 + simrt.Draw(3)
+		pa, pb, da, db := false, false, false, false
+		simrt.Fault("misuse")
+		corrupted = true
+		go func() { pa = expectPanic(func() { cc.Add(a) }); da = true }()
+		go func() { simrt.Stall(stallM % 6); pb = expectPanic(func() { cc.Add(bb) }); db = true }()
+		simrt.Quiesce(-1)
+		if !da || !db {
+			simrt.Failf("C08.blocked", "two concurrent positive Adds have not both returned at quiescence")
+			return
+		}
+		if !pa && !pb {
+			simrt.Failf("C08.misuse-no-panic", "concurrent Add(%d) and Add(%d) (sum beyond MaxInt32) both returned without a panic", a, bb)
+			return
+		}
+		simrt.Probe("concurrent_overflowing_adds")
 	}
 	// later ordinary calls
 	opposite := 2 // after an unbalanced negative Add, Add(+1) is the opposite direction
-	if variant == 3 {
+	if variant == 3 || variant == 4 {
 		opposite = 3
 	}
 	names := []string{"Send(8)", "Add(0)", "Add(1)", "Add(-1)"}
 	for i, op := range later {
-		if op == 0 && healedMaybe && variant == 3 {
+		if op == 0 && healedMaybe && (variant == 3 || variant == 4) {
 			break // a Send on a caster that believes in 2^31 receivers would never end
 		}
 		p := expectPanic(func() {
